@@ -854,11 +854,14 @@ class VM:
                 )
                 js_func._compiled = compiled_func
 
-                # Create prototype object for the function
-                # In JavaScript, every function has a prototype property
-                prototype = JSObject()
-                prototype.set("constructor", js_func)
-                js_func._prototype = prototype
+                if getattr(compiled_func, "is_arrow", False):
+                    js_func._lexical_this = frame.this_value
+                else:
+                    # Create prototype object for the function
+                    # In JavaScript, every function has a prototype property
+                    prototype = JSObject()
+                    prototype.set("constructor", js_func)
+                    js_func._prototype = prototype
 
                 # Capture closure cells for free variables
                 if compiled_func.free_vars:
@@ -2717,6 +2720,10 @@ class VM:
             args = list(func._bound_args) + list(args)
             func = func._original_func
 
+        # Arrow functions use the this of the code that created them
+        if hasattr(func, "_lexical_this"):
+            this_val = func._lexical_this
+
         compiled = getattr(func, "_compiled", None)
         if compiled is None:
             raise JSTypeError("Function has no bytecode")
@@ -2783,6 +2790,8 @@ class VM:
             target = constructor
             while hasattr(target, "_original_func"):
                 target = target._original_func
+            if hasattr(target, "_lexical_this"):
+                raise JSTypeError(f"{constructor} is not a constructor")
             # Create new object
             obj = JSObject()
             # Set prototype from constructor's prototype property
